@@ -157,6 +157,14 @@ def ack_shapes():
           ("Iff", pb(x), ("Not", pb(y))), ("And", ("Equals", x, y), pb(x), ("Not", pb(y))),
           ("Equals", f(f(x)), x), ("And", ("Equals", f(x), y), ("Equals", f(y), x), ("Not", ("Equals", f(f(x)), x))),
           ("Equals", x, y)]
+    # a binary function applied to constants: same constant / different constants in one position
+    def f2(s_, t_):
+        return ("fun", "f2", BV1, (BV1, BV1), s_, t_)
+    k0, k1 = ("lit", 0, BV1), ("lit", 1, BV1)
+    sh += [("And", ("Equals", x, y), ("Not", ("Equals", f2(k0, x), f2(k0, y)))),
+           ("And", ("Equals", x, y), ("Not", ("Equals", f2(x, k1), f2(y, k1)))),
+           ("Not", ("Equals", f2(k0, x), f2(k1, x))), ("And", ("Equals", x, k0), ("Not", ("Equals", f2(k0, x), f2(x, k0)))),
+           ("Not", ("Equals", f(k0), f(k0))), ("And", ("Equals", x, k1), ("Not", ("Equals", f(x), f(k1))))]
     return [Shape(t) for t in sh]
 
 
